@@ -24,6 +24,7 @@ import Gotree.Model.C13Std
 import Gotree.Model.C13PxForms
 import Gotree.Model.C13NsSpec
 import Gotree.Model.C13Tips
+import Gotree.Model.C13Flags
 
 namespace Gotree.Driver.C13
 open Gotree Gotree.Driver Gotree.C13
@@ -319,6 +320,9 @@ def handle (op : String) (f : List String) : Verdict :=
         tagIf (ts.length ≥ 2) "nontrivial" ++ treeTags ts
       -- oracle on the implementation's own output
       if firstS.startsWith "panic" || wres.startsWith "panic" then ⟨.oracle, tags, "panic: " ++ wres ++ " " ++ firstS⟩
+      -- the harness dumps the trees before and after the writer call and writes them twice
+      else if wres == "mutated-input" then
+        ⟨.oracle, tags, "the writer changed the trees it was given (their dump differs after the call, or a second call writes another text)"⟩
       else if hyp && wres != "ok" then ⟨.oracle, tags, "writer failed on well-formed trees"⟩
       else if hyp && !(recsAre (if fmt == "nexus1" then ts.take 1 else ts) mrecs 0) then
         -- on a case of the open finding F60, run the repaired variant of the model (rename tips only,
@@ -548,6 +552,42 @@ def handle (op : String) (f : List String) : Verdict :=
             ⟨.tie, tags, "model of the reformat glue: trees written before the error"⟩
           else ⟨.pass, tags, ""⟩
     | _, _, _, _ => bad "C13.reformat fields"
+  | "fmtflag", [flagE, docfmt, dumps, intext, xaux, exit, outtext, mrecsS] =>
+    match unescape flagE, (splitTerm "|" dumps).mapM T.undump, unescape intext, unescape outtext with
+    | some flag, some ts, some inS, some outS =>
+      match parseRecs mrecsS, parseXmlDoc xaux with
+      | some mrecs, some xdoc =>
+        -- cmd/root.go: the switch on rootInputFormat (formatOfFlag, theorem format_flag_table_check)
+        let sel := formatOfFlag flag
+        let documented := flag == "newick" || flag == "nexus" || flag == "phyloxml" || flag == "nextstrain"
+        let wf := WF13list ts
+        -- a documented word given together with a file of that format must select that format's reader
+        let hyp := wf && documented && flag == docfmt
+        let tags := ["fmtflag", "doc-" ++ docfmt, "sel-" ++ sel.constName] ++
+          tagIf documented ("flag-" ++ flag) ++ tagIf (!documented) "flag-other" ++ tagIf hyp "hyp" ++
+          tagIf wf "wf13" ++ tagIf (ts.length ≥ 2) "nontrivial" ++ treeTags ts
+        if exit == "timeout" || mrecsS.startsWith "panic" then ⟨.oracle, tags, "reformat --format: timeout / panic"⟩
+        else if hyp && exit != "ok" then
+          ⟨.oracle, tags, "reformat newick --format " ++ flag ++ " fails on a well-formed " ++ docfmt ++ " file"⟩
+        else if hyp && !(recsAre ts mrecs 0) then
+          ⟨.oracle, tags, "reformat newick --format " ++ flag ++ ": the trees written differ from the trees of the file, or a tree is missing"⟩
+        else
+          -- an element tree is handed to the PhyloXML reader only when the text is XML; these texts are
+          -- never JSON (they start with '(' or '#'): the Nextstrain reader refuses them
+          let doc := docForFlag sel inS.toList xdoc none
+          match reformatNewickFlag env flag inS.toList xdoc none, readMulti env doc with
+          | some (mok, mout), some recs =>
+            let good := (recs.takeWhile (·.out.isOk)).filterMap fun r => match r.out with | .ok t => some t | .err => none
+            let mexit := if mok then "ok" else "fail"
+            let tags := tagIf (mout == outS.toList) "out-eq" ++ tags
+            if mexit != exit then ⟨.tie, tags, "model of the format flag (" ++ sel.constName ++ "): exit " ++ mexit⟩
+            else if !(recsAre good mrecs 0) then ⟨.tie, tags, "model of the format flag (" ++ sel.constName ++ "): trees written"⟩
+            else ⟨.pass, tags, ""⟩
+          | _, _ =>
+            if knownUnsupported doc then ⟨.pass, "model-unsupported" :: tags, ""⟩
+            else ⟨.tie, "model-unsupported" :: tags, "the model declines this input document although it holds none of the constructs it is known not to follow"⟩
+      | _, _ => bad "C13.fmtflag records"
+    | _, _, _, _ => bad "C13.fmtflag fields"
   | "clifirst", [infmt, dumps, _text, _aux, exit, rowsS, errS] =>
     match (splitTerm "|" dumps).mapM T.undump with
     | some ts =>
